@@ -47,3 +47,97 @@ Proof. exact every_field_is_translated_refuted. Qed.
    constructors and translators) is what was reviewed: a change to any of them makes this fail *)
 Theorem C01_printers_match : printers = reviewed_printers.
 Proof. exact printers_match. Qed.
+
+(* ---- the text layer, kind by kind (closes: R2 for the instruction kinds outside the uniform uIR shape) ----
+   For each of the 66 instruction and terminator kinds, the regenerated LLString body (Gen/Printers.v) run by
+   Model/GoEval.v on an object of that kind whose operands are abstract values with given printed forms returns
+   exactly the line LLVM's grammar has for the kind -- for all operand texts, names, flag values, alignments,
+   orderings and attachments (quantified, not sampled).  kind_statements pairs each kind with the statement of its
+   lemma (Proofs/InstPrintLemmas.v, InstPrintMemory.v, CallPrintLemmas.v, TermPrintLemmas.v). *)
+From Coq Require Import Strings.Byte.
+From LLIR Require Import Lib.Bytes Model.Types Model.TypeString Model.GoEval Proofs.PrinterRefinement.
+From LLIR Require Import Proofs.InstPrintBase Proofs.InstPrintLemmas Proofs.InstPrintMemory Proofs.CallPrintLemmas Proofs.InvokePrintLemmas Proofs.CallBrPrintLemmas Proofs.TermPrintLemmas Proofs.InstPrintSummary Proofs.ValueStringLemmas Proofs.ConstExprPrintLemmas.
+Open Scope string_scope.
+
+Theorem C01_every_kind_prints_its_line : Forall (fun p => snd p) kind_statements.
+Proof. exact every_kind_prints_its_line. Qed.
+(* and the kinds with a statement are all the kinds that have a regenerated LLString body *)
+Theorem C01_printing_lemmas_cover_every_kind : map fst kind_statements = map p_type (filter is_kind printers).
+Proof. rewrite covered_kinds_are_all_kinds. exact statements_are_of_covered_kinds. Qed.
+
+(* some of the statements, written out.  %r = add nuw nsw T %x, %y (and sub, mul, shl) *)
+Theorem C01_overflow_binops_print : forall kind kw, In (kind, kw) overflow_binops ->
+  forall g fuel id tx ix ty iy flags mds,
+  call_printer impl g (S fuel) kind "LLString"
+    (VObj kind [("Ident()", VStr id); ("X", value tx ix); ("Y", value ty iy);
+                ("OverflowFlags", VList (map (VEnum "enum.OverflowFlag") flags)); ("Metadata", VList (map mdatt mds))])
+  = GoEval.Ok (VStr (id ++ lit " = " ++ lit kw ++ flags_text "enum.OverflowFlag" flags ++ lit " " ++ tv tx ix ++ lit ", " ++ iy ++ mds_text mds)%list).
+Proof. exact print_overflow_binop. Qed.
+
+(* %r = trunc T %x to T2 (and the other twelve conversions) *)
+Theorem C01_conversions_print : forall kind kw, In (kind, kw) conversions ->
+  forall g fuel id tx ix to mds,
+  call_printer impl g (S fuel) kind "LLString"
+    (VObj kind [("Ident()", VStr id); ("From", value tx ix); ("To", atype to); ("Metadata", VList (map mdatt mds))])
+  = GoEval.Ok (VStr (id ++ lit " = " ++ lit kw ++ lit " " ++ tv tx ix ++ lit " to " ++ to ++ mds_text mds)%list).
+Proof. exact print_conversion. Qed.
+
+(* %r = load atomic volatile T, T* %p syncscope("s") seq_cst, align N, !md *)
+Theorem C01_load_prints : forall g fuel id atomic volatile et tp ip scope ordering align mds,
+  call_printer impl g (S (S fuel)) "ir.InstLoad" "LLString"
+    (VObj "ir.InstLoad" [("Ident()", VStr id); ("ElemType", atype et); ("Src", value tp ip); ("Atomic", VBool atomic); ("Volatile", VBool volatile);
+                         ("SyncScope", VStr scope); ("Ordering", VEnum "enum.AtomicOrdering" ordering); ("Align", VEnum "ir.Align" align);
+                         ("Metadata", VList (map mdatt mds))])
+  = GoEval.Ok (VStr (id ++ lit " = load" ++ opt atomic " atomic" ++ opt volatile " volatile" ++ lit " " ++ et ++ lit ", " ++ tv tp ip
+              ++ syncscope_text scope ++ ordering_text ordering ++ align_text align ++ mds_text mds)%list).
+Proof. exact print_load. Qed.
+
+(* %r = tail call fast fastcc retattrs addrspace(N) T @f(T1 %a, T2 %b) fnattrs [ bundles ], !md -- the result name is
+   written unless the result type is void; a variadic callee is written with its whole signature *)
+Theorem C01_call_prints : forall fuel id rt sigt variadic tc ic (args : list (bytes * bytes)) tail cc flags rattrs addrspace fattrs bundles mds,
+  call_printer impl call_globals (S (S (S fuel))) "ir.InstCall" "LLString"
+    (VObj "ir.InstCall" [("Ident()", VStr id); ("Typ", atype rt); ("Sig()", asig sigt variadic); ("Callee", value tc ic);
+                         ("Args", VList (map (fun x => value (fst x) (snd x)) args));
+                         ("Tail", VEnum "enum.Tail" tail); ("CallingConv", VEnum "enum.CallingConv" cc);
+                         ("FastMathFlags", VList (map (VEnum "enum.FastMathFlag") flags));
+                         ("ReturnAttrs", VList (map aattr rattrs)); ("AddrSpace", VEnum "types.AddrSpace" addrspace);
+                         ("FuncAttrs", VList (map aattr fattrs)); ("OperandBundles", VList (map abundle bundles));
+                         ("Metadata", VList (map mdatt mds))])
+  = GoEval.Ok (VStr (result_text rt id ++ (if (tail =? 0)%Z then [] else enum_string "enum.Tail" tail ++ lit " ") ++ lit "call"
+              ++ flags_text "enum.FastMathFlag" flags ++ cc_text cc ++ attrs_text rattrs ++ addrspace_text " " addrspace
+              ++ lit " " ++ (if variadic then sigt else rt) ++ lit " " ++ ic ++ lit "(" ++ tvs args ++ lit ")"
+              ++ attrs_text fattrs ++ bundles_text bundles ++ mds_text mds)%list).
+Proof. exact print_call. Qed.
+
+(* br i1 %c, label %t, label %f *)
+Theorem C01_condbr_prints : forall g fuel tc ic t f mds,
+  call_printer impl g (S fuel) "ir.TermCondBr" "LLString"
+    (VObj "ir.TermCondBr" [("Cond", value tc ic); ("TargetTrue", value (lit "label") t); ("TargetFalse", value (lit "label") f);
+                           ("Metadata", VList (map mdatt mds))])
+  = GoEval.Ok (VStr (lit "br " ++ tv tc ic ++ lit ", label " ++ t ++ lit ", label " ++ f ++ mds_text mds)%list).
+Proof. exact print_condbr. Qed.
+
+(* what the statements assume of an operand -- String() is the type, a space, the identifier -- is what the
+   regenerated String method of every one of the 104 kinds of value does *)
+Theorem C01_value_string_is_type_space_ident : forall kind, In kind value_kinds -> forall g fuel t i,
+  call_printer impl g (S fuel) kind "String" (VObj kind [("Type()", atype t); ("Ident()", VStr i)]) = GoEval.Ok (VStr (tv t i)).
+Proof. exact value_string_is_type_space_ident. Qed.
+
+(* constant expressions as operands: getelementptr inbounds (T, T* p, T1 i, ...), and all 30 kinds have such a lemma *)
+Theorem C01_cexpr_getelementptr_prints : forall g fuel inbounds et tp ip (indices : list (bytes * bytes)),
+  call_printer impl g (S fuel) "constant.ExprGetElementPtr" "Ident"
+    (VObj "constant.ExprGetElementPtr" [("ElemType", atype et); ("Src", value tp ip);
+                                        ("Indices", VList (map (fun x => value (fst x) (snd x)) indices)); ("InBounds", VBool inbounds)])
+  = GoEval.Ok (VStr (lit "getelementptr" ++ opt inbounds " inbounds" ++ lit " (" ++ et ++ lit ", " ++ tv tp ip
+              ++ List.concat (map (fun x => lit ", " ++ fst x ++ lit " " ++ snd x)%list indices) ++ lit ")")%list).
+Proof. exact print_cexpr_getelementptr. Qed.
+Theorem C01_cexpr_kinds_are_covered :
+  forallb (fun p => existsb (String.eqb (p_type p)) cexpr_covered) (filter is_cexpr printers) = true
+  /\ List.length (filter is_cexpr printers) = 30.
+Proof. exact cexpr_kinds_are_covered. Qed.
+
+Print Assumptions C01_every_kind_prints_its_line.
+Print Assumptions C01_printing_lemmas_cover_every_kind.
+Print Assumptions C01_call_prints.
+Print Assumptions C01_value_string_is_type_space_ident.
+Print Assumptions C01_cexpr_getelementptr_prints.
